@@ -176,6 +176,22 @@ def run(pid, level="model_checking"):
     sims, rs = export_paths(alpha, 10 if thorough else 8, 5, simulate="num=%d" % (400 if thorough else 60),
                             sim_depth=(11 if thorough else 9), seed=rep.seed + 1)
     jobs += path_jobs(paths, "p", bat) + path_jobs(sims, "s", bat)
+    own_all = set()
+    if pid in ("C02", "C03"):
+        # flush_on_insert=False: the rewrite of remove / update must not lose buffered rows; contents cannot be projected at
+        # every step there, so each write is followed by all() and the history ends with close + file comparison
+        f = FOCUS[pid]
+        for i in range(200 if thorough else 40):
+            g = gen.Gen(rep.seed * 31337 + i, ntk=NTK, nfk=NFK, focus=dict(f["weights"], reopen=0), handles=0.1)
+            ops = []
+            for a in g.history(g.r.choice([8, 14, 20]), p_read=0.2):
+                ops.append(a)
+                if a["op"] in ("remove", "drop_measurement", "update", "update_all", "__repeat__"):
+                    ops.append({"op": "all", "m": -1, "sorted": 0})
+            ops.append({"op": "reopen"})
+            jid = "f%d" % i
+            own_all.add(jid)
+            jobs.append((jid, "csv", i % 2, ops, [], NTK, NFK, {"nostore": True, "csv": {"flush_on_insert": False}}))
     recorded = traces.record_all(jobs)
     verdicts, js = traces.judge(recorded)
     byid = {t["id"]: t for t in recorded}
@@ -187,6 +203,8 @@ def run(pid, level="model_checking"):
         for err in traces.errors(v):
             ev = traces.failing_event(tr, err)
             own = traces.owner(ev["a"], err["clause"], ev["exc"])
+            if tid in own_all and err["clause"] in ("result", "file", "raises"):
+                own = pid                       # in these traces every read follows a remove / update of this property
             if own != pid:
                 cut[own] = cut.get(own, 0) + 1
                 continue
@@ -196,6 +214,27 @@ def run(pid, level="model_checking"):
                            "battery": job_battery.get(tid, []), "clause": err["clause"], "expected": err["expected"]},
                           tags=failure_tags(tr, err))
             break                     # one report per trace: its first failure owned by this property
+    n_fault = 0
+    if pid == "C06":
+        # error paths: an OSError at every I/O call of the operations of a few histories; afterwards a valid
+        # index must still mirror the object's own storage (clause fault_index of Trace_TinyFlux)
+        import c13
+        fjobs = c13.fault_jobs(random.Random(rep.seed * 77 + 6), 40 if thorough else 8, thorough, per_op=15)
+        frec = traces.record_faults(fjobs)
+        fver, fjs = traces.judge(frec)
+        n_fault = len(frec)
+        fby = {t["id"]: t for t in frec}
+        for tid, v in fver.items():
+            for err in traces.errors(v):
+                if err["clause"] != "fault_index":
+                    cut["C13"] = cut.get("C13", 0) + 1
+                    continue
+                ev = traces.failing_event(fby[tid], err)
+                rep.violation("after an OSError injected at I/O call %s of %s the index is valid but does not mirror storage: expected %s"
+                              % (ev["fault"]["at"], json.dumps(ev["a"])[:300], json.dumps(err["expected"])[:300]),
+                              {"kind": "csv", "auto_index": fby[tid]["auto_index"], "ops": [e["a"] for e in fby[tid]["events"]], "fault_at": ev["fault"]["at"]},
+                              tags={"clause:fault_index", "op:" + ev["a"]["op"], "at:" + ev["fault"]["at"]})
+                break
     ok = sum(1 for v in verdicts.values() if v["ok"])
     rep.coverage = {
         "states": st + js["states"] + rp.distinct,
@@ -212,7 +251,7 @@ def run(pid, level="model_checking"):
         "traces_accepted": ok,
         "failures_owned_by_other_properties": cut,
         "tlc_paths": len(paths), "tlc_simulated": len(sims), "random_histories": n_rand, "events_judged": n_events,
-        "operations_executed_by_kind": op_hist(recorded),
+        "operations_executed_by_kind": op_hist(recorded), "fault_runs_with_index_observation": n_fault,
         "design_states": st, "design_transitions": tr_, "checker_cmd": cmd,
     }
     rep.assumptions = ["values are ranks mapped order-isomorphically to real values by the plain theme (verified at start-up)",
